@@ -55,3 +55,7 @@ pub use protect::{
 };
 
 mod wql;
+
+#[cfg(hyperledger_aries_askar_verif)]
+#[doc(hidden)]
+pub mod verif_hooks;
